@@ -107,7 +107,7 @@ CHECKS = {
     "C08": dict(
         kani=[dict(crate="nexrad-decode", files=["c08.rs"], tag="-contract", harnesses=[
             dict(name="c08_get_datetime_contract", what="injected contract on util::get_datetime: all d in 1..=65535, all ms < 86_400_000: timestamp()==(d-1)*86400+t/1000, subsec millis==t%1000; chrono executed symbolically"),
-            dict(name="c08_get_datetime_contract_minutes", tier="thorough", what="same contract through Duration::minutes (subsumed by the millisecond harness: the Duration values coincide)"),
+            dict(name="c08_minutes_get_datetime_contract", tier="thorough", what="same contract through Duration::minutes (subsumed by the millisecond harness: the Duration values coincide)"),
             dict(name="c08_get_datetime_total", tier="thorough", what="no panic for all u16 x u32 ms and all u16 x u16 minutes, including inputs outside the documented domain (inside it the contract harness already excludes a panic); ~10-13 min"),
         ]),
         dict(crate="nexrad-decode", files=["c08s.rs"], tag="-callsites", contracts=False, harnesses=[
